@@ -145,6 +145,8 @@ def cases(tier, seed):
                 for lay in range(3):
                     for pr in (1.0, 5.0):
                         out.append({"kind": "cantera", "recipe": rec_, "kept": kept, "seed": seed, "w": 40, "layout": lay, "pressure": pr})
+    out.append({"kind": "cantera", "recipe": "USER_S", "kept": "Y(O2) temp", "seed": seed, "w": 40, "layout": 1, "pressure": 1.0})
+    out.append({"kind": "cantera", "recipe": "ENT", "kept": "Y(O2) temp", "seed": seed, "w": 40, "layout": 2, "pressure": 1.0})
     # a planar flame (state invariant along x and y); a pressure at the far end of the range (1500 atm)
     for rec_ in ("HRR", "ENT"):
         out.append({"kind": "cantera", "recipe": rec_, "kept": "temp", "seed": seed, "w": 40, "layout": 1, "pressure": 1.0, "planar": True})
@@ -355,12 +357,14 @@ def thermo_ref(d):
             a[..., 2:2 + ns] = w
             if d.get("planar"):
                 continue
-            # undefined states at fixed cells
-            a[0, 0, 0, 1] = 0.0                      # T = 0
+            # undefined states at fixed cells (every second box has an empty composition at a NON-zero temperature only:
+            # the two kinds of undefined state do not always come together)
             a[-1, -1, -1, 2:2 + ns] = 0.0            # sum(Y) = 0
-            if a.shape[0] > 2:
-                a[2, 0, 1, 1] = 0.0
-                a[2, 0, 1, 2:2 + ns] = 0.0
+            if (b + lv) % 2 == 0:
+                a[0, 0, 0, 1] = 0.0                      # T = 0
+                if a.shape[0] > 2:
+                    a[2, 0, 1, 1] = 0.0
+                    a[2, 0, 1, 2:2 + ns] = 0.0
     return ref
 
 
